@@ -202,3 +202,23 @@ func SelfTestH2C() error {
 	}
 	return nil
 }
+
+// SSWUBranch tells which case of the simplified SWU map the field element u takes: "exceptional" (u = 0), "first" (g(x1) is a
+// square) or "second"
+func SSWUBranch(u *big.Int) string {
+	u = new(big.Int).Mod(u, P)
+	if u.Sign() == 0 {
+		return "exceptional"
+	}
+	u2 := FpMul(u, u)
+	zu2 := FpMul(h2cZ, u2)
+	den := FpAdd(FpMul(zu2, zu2), zu2)
+	if den.Sign() == 0 {
+		return "exceptional"
+	}
+	x1 := FpMul(FpMul(FpNeg(h2cB), FpInv(h2cA)), FpAdd(big.NewInt(1), FpInv(den)))
+	if _, ok := FpSqrt(isoRHS(x1)); ok {
+		return "first"
+	}
+	return "second"
+}
